@@ -51,7 +51,10 @@ func poolObligations(c *Checker, pfx string) {
 		s := c.Summary(fn)
 		if !c.undecidedEffects(r("1"), "PoolAllocator.Put", s) {
 			p, b := paramName(fn, 0), buf{paramName(fn, 1)}
-			chn, ln := mkAtom(p+".alloc.Channels", intT), mkAtom(p+".alloc.Length", intT)
+			pm := c.poolModel()
+			if !pm.ok || !pm.newOK || pm.newLen == nil || pm.newCap == nil {
+				c.undecided(r("1"), "PoolAllocator.Put", c.pos(fn.Pos()), "the constructor model of the pool is not available: "+pm.why+pm.newWhy)
+			}
 			fi := bufferFields(fn.Params[1].Type().Underlying().(*types.Pointer).Elem())
 			nret := 0
 			for _, o := range retPaths(s) {
@@ -89,12 +92,14 @@ func poolObligations(c *Checker, pfx string) {
 				if fi != nil && len(hdr.F) >= 2 {
 					data, _ = fi.at(hdr, fi.data).(SliceV)
 				}
-				wantLen := specMul(chn, ln)
-				okLen := data.Stor != nil && data.Stor.Name == b.stor() && eqInt(data.Off, zeroT()) && eqInt(data.Len, wantLen)
+				okLen := data.Stor != nil && data.Stor.Name == b.stor() && eqInt(data.Off, zeroT()) && pm.newLen != nil && eqInt(pm.through(p, data.Len), pm.newLen)
 				c.expect(okLen, r("1"), "PoolAllocator.Put/length", c.pos(fn.Pos()), "len(data) restored to Channels*Length",
 					fmt.Sprintf("pooled buffer has len(data) = %s, expected alloc.Channels*alloc.Length (a shortened or extended buffer is handed out again as is)", pretty(canonOrNil(data.Len))))
-				guardEq := Cond{Kind: CEQ0, P: normSign(normInt(b.capT()).Sub(normInt(specMul(mkAtom(p+".alloc.Capacity", intT), chn))))}
-				okCap := data.Stor != nil && eqInt(data.Cap, b.capT()) && hasFact(put.Facts, guardEq)
+				okCap := false
+				if pm.newCap != nil {
+					guardEq := Cond{Kind: CEQ0, P: normSign(normInt(b.capT()).Sub(normInt(pm.newCap)))}
+					okCap = data.Stor != nil && eqInt(data.Cap, b.capT()) && hasFact(pm.factsThrough(p, put.Facts), guardEq)
+				}
 				c.expect(okCap, r("1"), "PoolAllocator.Put/capacity", c.pos(fn.Pos()), "cap(data) unchanged and equal to Capacity*Channels by the guard", "pooled buffer has cap(data) = "+pretty(canonOrNil(data.Cap))+", not established equal to alloc.Capacity*alloc.Channels on the path to sync.Pool.Put")
 				// zeroed region must cover [0, cap)
 				covered := false
@@ -104,7 +109,7 @@ func poolObligations(c *Checker, pfx string) {
 					case EStoreElem, ECopy, EClear:
 						rg, ok := regionOf(e)
 						if ok && rg.zero && rg.stor.Name == b.stor() && rg.start.IsZero() {
-							if rg.count.Equal(normInt(b.capT())) || rg.count.Equal(normInt(specMul(mkAtom(p+".alloc.Capacity", intT), chn))) {
+							if rg.count.Equal(normInt(b.capT())) || (pm.newCap != nil && normInt(pm.through(p, rg.count.toTerm())).Equal(normInt(pm.newCap))) {
 								covered = true
 							}
 							continue
@@ -155,7 +160,11 @@ func poolObligations(c *Checker, pfx string) {
 				o := retPaths(s)[0]
 				ms := mods(o)
 				pv, isP := o.Ret.(PtrV)
-				ok = len(ms) == 1 && isPoolCall(ms[0], "Get") && isP && pv.Obj != nil && pv.Obj.Kind == OOpaque && strings.Contains(pv.Obj.Name, "pool.Get") && len(pv.Path) == 0
+				item := isP && pv.Obj != nil && pv.Obj.Kind == OOpaque && strings.Contains(pv.Obj.Name, "pool.Get") && len(pv.Path) == 0
+				if ov, isO := o.Ret.(OpaqueV); isO && strings.Contains(ov.Name, "pool.Get") {
+					item = true // type-asserted inside a generic helper: still exactly the pool's item
+				}
+				ok = len(ms) == 1 && isPoolCall(ms[0], "Get") && item
 				detail = "effects: " + describeEffects(ms) + " result: " + valString(o.Ret)
 				if ok {
 					pp, isPP := ms[0].Args[0].(PtrV)
@@ -165,112 +174,23 @@ func poolObligations(c *Checker, pfx string) {
 			c.expect(ok, r("2"), "PoolAllocator.Get", c.pos(fn.Pos()), "returns exactly what sync.Pool.Get returned, untouched", "Get does more than return the pool's item: "+detail)
 		}
 	}
-	// ---- P3: New closure allocates with the stored allocator
+	// ---- P3: the constructor model (see poolModel): PoolAlloc builds a fresh sync.Pool whose New function returns,
+	// per call, a fresh buffer shaped by the Allocator argument; everything else the PoolAllocator stores is a value
 	if fn := c.anchor(r("3"), "PoolAlloc"); fn != nil {
-		s := c.Summary(fn)
-		if !c.undecidedEffects(r("3"), "PoolAlloc", s) {
-			a := paramName(fn, 0)
-			ok := len(retPaths(s)) == 1
-			detail := ""
-			var clo *ClosureV
-			if ok {
-				o := retPaths(s)[0]
-				sv, isS := o.Ret.(StructV)
-				ok = isS && len(sv.F) == 2
-				if ok {
-					var allocV StructV
-					var poolP PtrV
-					for _, f := range sv.F {
-						switch x := f.(type) {
-						case StructV:
-							allocV = x
-						case PtrV:
-							poolP = x
-						}
-					}
-					ok = len(allocV.F) == 3 && poolP.Obj != nil && poolP.Obj.Kind == OFresh
-					if ok {
-						for i, fld := range []string{"Channels", "Length", "Capacity"} {
-							if t := valTerm(allocV.F[i]); t == nil || t.Key() != mkAtom(a+"."+fld, nil).Key() {
-								ok = false
-								detail = "stored allocator differs from the argument"
-							}
-						}
-						pool, _ := o.St.mem[poolP.Obj].(StructV)
-						for _, f := range pool.F {
-							if cv, isC := f.(ClosureV); isC {
-								cc := cv
-								clo = &cc
-							}
-						}
-						if clo == nil {
-							ok, detail = false, "sync.Pool.New is not a closure of this package"
-						} else {
-							// captured variable must hold the same allocator value
-							okBind := len(clo.Bind) == 1
-							if okBind {
-								bp, isP := clo.Bind[0].(PtrV)
-								okBind = isP && bp.Obj != nil
-								if okBind {
-									cv, _ := o.St.mem[bp.Obj].(StructV)
-									okBind = len(cv.F) == 3
-									for i, fld := range []string{"Channels", "Length", "Capacity"} {
-										if okBind {
-											if t := valTerm(cv.F[i]); t == nil || t.Key() != mkAtom(a+"."+fld, nil).Key() {
-												okBind = false
-											}
-										}
-									}
-								}
-							}
-							if !okBind {
-								ok, detail = false, "the New closure does not capture the allocator passed to PoolAlloc"
-							}
-						}
-					}
-				}
-				if len(mods(o)) > 0 {
-					ok, detail = false, "PoolAlloc modifies existing memory: "+describeEffects(mods(o))
-				}
+		pm := c.poolModel()
+		c.expect(pm.ok, r("3"), "PoolAlloc", c.pos(fn.Pos()), "a fresh sync.Pool plus values computed from the argument allocator", "PoolAlloc shape: "+pm.why)
+		if pm.ok {
+			a := pm.a
+			chn, ln, cp := mkAtom(a+".Channels", intT), mkAtom(a+".Length", intT), mkAtom(a+".Capacity", intT)
+			okN, d := pm.newOK, pm.newWhy
+			if okN && !(eqInt(pm.newLen, specMul(chn, ln)) && eqInt(pm.newCap, specMul(chn, cp)) && pm.newCh != nil && eqInt(pm.newCh, chn)) {
+				okN, d = false, fmt.Sprintf("New's buffer is not Alloc(argument allocator): len %s cap %s channels %s", pretty(canonOrNil(pm.newLen)), pretty(canonOrNil(pm.newCap)), pretty(canonOrNil(pm.newCh)))
 			}
-			c.expect(ok, r("3"), "PoolAlloc", c.pos(fn.Pos()), "pool and New closure are built from the argument allocator", "PoolAlloc shape: "+detail)
-			if clo != nil {
-				cs := c.Summary(clo.Fn)
-				if !c.undecidedEffects(r("3"), "PoolAlloc.New", cs) {
-					okN := len(retPaths(cs)) > 0 && len(clo.Fn.FreeVars) == 1
-					d := ""
-					fv := ""
-					if okN {
-						fv = clo.Fn.FreeVars[0].Name()
-					}
-					for _, o := range retPaths(cs) {
-						if !okN {
-							break
-						}
-						iv, isI := o.Ret.(IfaceV)
-						pv, isP := iv.Dyn.(PtrV)
-						if !isI || !isP || pv.Obj == nil || pv.Obj.Kind != OFresh {
-							okN, d = false, "New does not return a fresh buffer: "+valString(o.Ret)
-							break
-						}
-						hdr, _ := o.St.mem[pv.Obj].(StructV)
-						fi := bufferFields(pv.Obj.Typ)
-						if fi == nil || len(hdr.F) < 2 {
-							okN, d = false, "New does not return a Buffer"
-							break
-						}
-						dt, _ := fi.at(hdr, fi.data).(SliceV)
-						chn, ln, cp := mkAtom(fv+".Channels", intT), mkAtom(fv+".Length", intT), mkAtom(fv+".Capacity", intT)
-						if dt.Stor == nil || dt.Stor.Kind != SFresh || !eqInt(dt.Len, specMul(chn, ln)) || !eqInt(dt.Cap, specMul(chn, cp)) {
-							okN, d = false, "New's buffer is not Alloc(captured allocator): "+valString(dt)
-						}
-						if m := mods(o); len(m) > 0 {
-							okN, d = false, "New modifies shared state: "+describeEffects(m)
-						}
-					}
-					c.expect(okN, r("3"), "PoolAlloc.New", c.pos(clo.Fn.Pos()), "New returns Alloc[T](captured allocator): fresh per call", d)
-				}
+			pos := pm.newPos
+			if pos == "" {
+				pos = c.pos(fn.Pos())
 			}
+			c.expect(okN, r("3"), "PoolAlloc.New", pos, "New returns Alloc[T](argument allocator): fresh per call", d)
 		}
 	}
 }
@@ -299,27 +219,28 @@ func checkC11(c *Checker) {
 	// field table
 	if tn, ok := c.W.Pkg.Types.Scope().Lookup("PoolAllocator").(*types.TypeName); ok {
 		st, _ := tn.Type().Underlying().(*types.Struct)
-		okT := st != nil && st.NumFields() == 2
+		// exactly one *sync.Pool; everything else is a value without references (it is set by the constructor and
+		// only read afterwards: the stores are checked per function below)
+		okT := st != nil
 		desc := ""
 		if st != nil {
+			nPool := 0
 			for i := 0; i < st.NumFields(); i++ {
-				desc += st.Field(i).Name() + " " + typeKey(st.Field(i).Type()) + "; "
-			}
-			if okT {
-				var hasPool, hasAlloc bool
-				for i := 0; i < 2; i++ {
-					ft := st.Field(i).Type()
-					if pt, isP := ft.(*types.Pointer); isP && typeKey(pt.Elem()) == "sync.Pool" {
-						hasPool = true
-					}
-					if n, isN := ft.(*types.Named); isN && n.Obj().Name() == "Allocator" {
-						hasAlloc = true
-					}
+				ft := st.Field(i).Type()
+				desc += st.Field(i).Name() + " " + typeKey(ft) + "; "
+				if pt, isP := ft.(*types.Pointer); isP && typeKey(pt.Elem()) == "sync.Pool" {
+					nPool++
+					continue
 				}
-				okT = hasPool && hasAlloc
+				if !plainValueType(ft, 0) {
+					okT = false
+				}
+			}
+			if nPool != 1 {
+				okT = false
 			}
 		}
-		c.expect(okT, "C11-Q1", "PoolAllocator/fields", c.pos(tn.Pos()), "fields: "+desc, "PoolAllocator has state other than {*sync.Pool, Allocator}: "+desc)
+		c.expect(okT, "C11-Q1", "PoolAllocator/fields", c.pos(tn.Pos()), "fields: "+desc, "PoolAllocator has state other than one *sync.Pool and plain values: "+desc)
 	} else {
 		c.undecided("C11-Q1", "PoolAllocator/fields", "", "type PoolAllocator does not resolve")
 	}
@@ -694,6 +615,213 @@ func scalarDomain(fn *ssa.Function) bool {
 		if nt, ok := rt.(*types.Named); ok && (nt.Obj().Name() == "BitDepth" || nt.Obj().Name() == "Frequency") {
 			return true
 		}
+	}
+	return false
+}
+
+// ---------------- pool model ----------------
+
+// poolModel is what the constructor establishes: the value of every scalar field of the PoolAllocator in terms of
+// the Allocator passed to PoolAlloc, the sync.Pool object, and the buffer its New function produces. Put's
+// conditions are read through it (p.<field> := its constructor term), so the rules do not depend on whether the
+// allocator, or counts derived from it, are stored.
+type poolModel struct {
+	ok      bool
+	why     string
+	a       string           // name of PoolAlloc's Allocator parameter
+	fields  map[string]*Term // "alloc.Channels" -> a.Channels, "capacity" -> a.Capacity*a.Channels, ...
+	newLen  *Term            // len/cap/channels of the buffer New returns, over a.*
+	newCap  *Term
+	newCh   *Term
+	newFn   *ssa.Function
+	newPos  string
+	newOK   bool
+	newWhy  string
+	poolFld string // field path of the *sync.Pool
+}
+
+func (c *Checker) poolModel() *poolModel {
+	if c.pm != nil {
+		return c.pm
+	}
+	m := &poolModel{fields: map[string]*Term{}}
+	c.pm = m
+	fn := c.W.Fn("PoolAlloc")
+	if fn == nil {
+		m.why = "no function PoolAlloc"
+		return m
+	}
+	s := c.Summary(fn)
+	for _, o := range s.Outcomes {
+		for _, e := range o.St.effects {
+			if e.Kind == EUndecided {
+				m.why = "PoolAlloc: " + e.Note
+				return m
+			}
+		}
+	}
+	if len(retPaths(s)) != 1 || len(panicPaths(s)) != 0 || len(fn.Params) != 1 {
+		m.why = "PoolAlloc is not a single straight-line constructor of one Allocator parameter"
+		return m
+	}
+	o := retPaths(s)[0]
+	if ms := mods(o); len(ms) > 0 {
+		m.why = "PoolAlloc modifies existing memory: " + describeEffects(ms)
+		return m
+	}
+	m.a = paramName(fn, 0)
+	rt := fn.Signature.Results().At(0).Type()
+	var pool *Object
+	var walk func(v Val, t types.Type, path string)
+	walk = func(v Val, t types.Type, path string) {
+		switch x := v.(type) {
+		case StructV:
+			st, ok := t.Underlying().(*types.Struct)
+			if !ok {
+				return
+			}
+			for i := 0; i < st.NumFields() && i < len(x.F); i++ {
+				pp := st.Field(i).Name()
+				if path != "" {
+					pp = path + "." + pp
+				}
+				walk(x.F[i], st.Field(i).Type(), pp)
+			}
+		case PtrV:
+			if x.Obj != nil && typeKey(x.Obj.Typ) == "sync.Pool" {
+				if pool != nil {
+					m.why = "more than one sync.Pool"
+				}
+				pool, m.poolFld = x.Obj, path
+			} else {
+				m.why = "PoolAllocator holds a pointer other than the *sync.Pool (" + path + ")"
+			}
+		case *Term:
+			m.fields[path] = x
+		default:
+			m.why = fmt.Sprintf("PoolAllocator field %s holds %s", path, valString(v))
+		}
+	}
+	walk(o.Ret, rt, "")
+	if m.why != "" {
+		return m
+	}
+	if pool == nil || pool.Kind != OFresh {
+		m.why = "PoolAlloc does not build a fresh sync.Pool"
+		return m
+	}
+	m.ok = true
+	// the New function
+	var clo *ClosureV
+	if pv, ok := o.St.mem[pool].(StructV); ok {
+		for _, f := range pv.F {
+			if cv, isC := f.(ClosureV); isC {
+				cc := cv
+				clo = &cc
+			}
+		}
+	}
+	if clo == nil {
+		m.newWhy = "sync.Pool.New is not a function value of this package"
+		return m
+	}
+	m.newFn, m.newPos = clo.Fn, c.pos(clo.Fn.Pos())
+	outs := c.W.Interp.RunClosure(*clo, o.St)
+	nret := 0
+	m.newOK = true
+	for _, no := range outs {
+		for _, e := range no.St.effects[len(o.St.effects):] {
+			if e.Kind == EUndecided {
+				m.newOK, m.newWhy = false, "New: "+e.Note
+			}
+		}
+		if no.Kind != ORet {
+			m.newOK, m.newWhy = false, "New has a non-returning path"
+			continue
+		}
+		nret++
+		iv, isI := no.Ret.(IfaceV)
+		pv, isP := iv.Dyn.(PtrV)
+		if !isI || !isP || pv.Obj == nil || pv.Obj.Kind != OFresh || len(pv.Path) != 0 {
+			m.newOK, m.newWhy = false, "New does not return a fresh buffer: "+valString(no.Ret)
+			continue
+		}
+		if _, existed := o.St.mem[pv.Obj]; existed {
+			m.newOK, m.newWhy = false, "New returns an object built by PoolAlloc, not a fresh one per call"
+			continue
+		}
+		hdr, _ := no.St.mem[pv.Obj].(StructV)
+		fi := bufferFields(pv.Obj.Typ)
+		if fi == nil {
+			m.newOK, m.newWhy = false, "New does not return a Buffer"
+			continue
+		}
+		dt, _ := fi.at(hdr, fi.data).(SliceV)
+		if dt.Stor == nil || dt.Stor.Kind != SFresh {
+			m.newOK, m.newWhy = false, "New's buffer does not own fresh storage: "+valString(dt)
+			continue
+		}
+		for _, e := range no.St.effects[len(o.St.effects):] {
+			if e.Modifies() && !(e.Stor != nil && e.Stor == dt.Stor) && !(e.Obj != nil && e.Obj == pv.Obj) {
+				m.newOK, m.newWhy = false, "New modifies shared state: "+e.String()
+			}
+		}
+		m.newLen, m.newCap, m.newCh = dt.Len, dt.Cap, valTerm(fi.at(hdr, fi.channels))
+	}
+	if nret == 0 {
+		m.newOK, m.newWhy = false, "New has no returning path"
+	}
+	return m
+}
+
+// through rewrites p.<field> atoms by the constructor's terms (over the Allocator argument).
+func (m *poolModel) through(p string, t *Term) *Term {
+	if t == nil || len(m.fields) == 0 {
+		return t
+	}
+	sub := map[string]*Term{}
+	for k, v := range m.fields {
+		sub[p+"."+k] = v
+	}
+	return t.subst(sub)
+}
+
+func (m *poolModel) factsThrough(p string, f *Facts) *Facts {
+	out := &Facts{}
+	for _, c := range f.list {
+		if c.P == nil {
+			out.add(c)
+			continue
+		}
+		np := normInt(m.through(p, c.P.toTerm()))
+		nc := c
+		nc.P = np
+		if c.Kind == CEQ0 || c.Kind == CNE0 {
+			nc.P = normSign(np)
+		}
+		out.add(nc)
+	}
+	return out
+}
+
+// plainValueType: integers, floats, bools, strings and structs/arrays of those (no pointers, slices, maps, channels,
+// functions or interfaces).
+func plainValueType(t types.Type, depth int) bool {
+	if depth > 4 {
+		return false
+	}
+	switch u := t.Underlying().(type) {
+	case *types.Basic:
+		return u.Kind() != types.UnsafePointer
+	case *types.Struct:
+		for i := 0; i < u.NumFields(); i++ {
+			if !plainValueType(u.Field(i).Type(), depth+1) {
+				return false
+			}
+		}
+		return true
+	case *types.Array:
+		return plainValueType(u.Elem(), depth+1)
 	}
 	return false
 }
